@@ -771,6 +771,43 @@ func genSparse(t *testing.T, tr *vhlib.Trace, r *vhlib.Rand) {
 	w.doRead(b)
 }
 
+// genTight: one volume filled completely, part of its sectors left unreferenced and pruned again, then
+// resized to targets on both sides of the point where the free slots below the target are exactly enough
+// for the sectors at or above it (the boundary between a shrink that succeeds and one that has to fail and
+// keep every referenced sector readable).
+func genTight(t *testing.T, tr *vhlib.Trace, r *vhlib.Rand) {
+	w := newWorld(t, tr, "data", 0)
+	defer w.close()
+	tr.Line("reset mode=data cache=0", "")
+	n := 4 + r.Intn(8)
+	id := w.doVmAdd(uint64(n))
+	w.doAddC1(1, 40, 5)
+	var keep []int
+	var chs []string
+	for k := 0; k < n; k++ {
+		w.doWrite(100 + k)
+		if !r.Chance(2, 5) {
+			keep = append(keep, 100+k)
+			chs = append(chs, fmt.Sprintf("a%d", 100+k))
+		}
+	}
+	w.doSync()
+	w.doRevise1(1, chs)
+	w.doTick()
+	w.doPrune()
+	readAll := func() {
+		for _, k := range keep {
+			w.doRead(k)
+		}
+	}
+	for a := 0; a < 1+r.Intn(3); a++ {
+		w.doVmResize(id, uint64(1+r.Intn(n-1)), nil)
+		readAll()
+	}
+	w.doRestart()
+	readAll()
+}
+
 // RHP3 UpdateSector / RHP2 update: ReadSector(old) -> patch the returned buffer in place -> Write(new root, same buffer)
 func scenarioAlias(w *world, r *vhlib.Rand, nroots int) {
 	old, nw := nroots+20, nroots+21
@@ -1076,6 +1113,9 @@ func TestEngine(t *testing.T) {
 	}
 	if mode == "data" {
 		genSparse(t, tr, r)
+		for k := 0; k < 4; k++ {
+			genTight(t, tr, r)
+		}
 	}
 	for i := 0; i < cfg.N; i++ {
 		switch {
